@@ -98,7 +98,7 @@ let err_name = function
   | EShortBlock -> "ShortBlock" | ESubframeHeader -> "InvalidSubframeHeader" | ESubframeType -> "InvalidSubframeHeaderType"
   | EWastedBits -> "ExcessiveWastedBits" | ECodingMethod -> "InvalidCodingMethod" | EPartitionOrder -> "InvalidPartitionOrder"
   | EFixedOrder -> "InvalidFixedOrder" | ELpcOrder -> "InvalidLpcOrder" | EQlpPrecision -> "InvalidQlpPrecision"
-  | ENegativeShift -> "NegativeLpcShift" | ETooManySamples -> "TooManySamples" | EOther -> "Other"
+  | ENegativeShift -> "NegativeLpcShift" | ETooManySamples -> "TooManySamples" | EResidualOverflow -> "ResidualOverflow" | EOther -> "Other"
 let panic_name = function
   | POverflow -> "overflow" | PDivZero -> "divzero" | PChunkZero -> "chunk0" | PUnwrap -> "unwrap"
   | PCapacity -> "capacity" | PSlice -> "slice" | PAssert -> "assert" | PFuel -> "fuel"
@@ -106,13 +106,11 @@ let end_name = function EndEof -> "eof" | EndErr e -> "err:" ^ err_name e | EndP
 let res_name = function Ok _ -> "ok" | Err e -> "err:" ^ err_name e | Panic k -> "panic:" ^ panic_name k
 
 let json_ints l = "[" ^ String.concat "," (List.map string_of_int l) ^ "]"
-let profile_of s = if s = "debug" then Debug else Release
 
 (* ---------- kinds ---------- *)
 let run_dec_stream c =
-  let p = profile_of (str_field c "profile") in
   let bytes = bytes_of_hex (str_field c "bytes") in
-  match dec_stream p bytes with
+  match dec_stream bytes with
   | None -> "{\"end\":\"badmeta\"}"
   | Some ((si, frames), e) ->
     let lens = List.map List.length frames in
@@ -121,9 +119,8 @@ let run_dec_stream c =
       (end_name e) (int_of_n si.si_channels) (int_of_n si.si_bps) (int_of_n si.si_rate) (json_ints lens) (json_ints samples)
 
 let run_dec_subset c =
-  let p = profile_of (str_field c "profile") in
   let bytes = bytes_of_hex (str_field c "bytes") in
-  let (frames, e) = dec_subset_frames p (nat_of_int (List.length bytes + 1)) bytes [] in
+  let (frames, e) = dec_subset_frames (nat_of_int (List.length bytes + 1)) bytes [] in
   let fr = List.map (fun (h, s) ->
       Printf.sprintf "{\"samples\":%s,\"rate\":%d,\"ch\":%d,\"bps\":%d}" (json_ints (List.map int_of_z s))
         (int_of_n h.h_rate) (int_of_n (assign_channels h.h_assign)) (int_of_n h.h_bps)) frames in
